@@ -614,7 +614,7 @@ func c20Tie(a lib.Args, res *lib.Result) error {
 		v["7"] = !(ballooned || srcAsIs)
 		res.Note("variant of fix 7 on this tree: fixed=%v (witness probe: ballooned=%v, peak RSS %d MiB, timed out %v, exited %v; source still allocates make([]byte, chunkSize): %v)", v["7"], ballooned, o.HWMKB/1024, o.Timeout, o.Exited, srcAsIs)
 		if !v["7"] {
-			res.Fail(lib.Failure{Kind: "property", Signature: "memory-or-wedge:PutObject:stream-unsigned-trailer:chunk-size-line",
+			res.Fail(lib.Failure{Kind: "property", Signature: "memory:PutObject:stream-unsigned-trailer:chunk-size-line",
 				What:  fmt.Sprintf("a chunk-size line of an unsigned aws-chunked upload sizes an allocation of up to 5 GiB (make([]byte, chunkSize)) whatever arrives behind it: peak RSS %d MiB, answer within the watchdog: %v, child exited: %v", o.HWMKB/1024, !o.Timeout, o.Exited),
 				Input: map[string]interface{}{"tie_site": "witness-7", "args": map[string]string{}, "request": "PUT /fzb/chunked, x-amz-content-sha256: STREAMING-UNSIGNED-PAYLOAD-TRAILER, body `140000000\\r\\n` + 16 bytes (sent twice)"},
 				Impl:  fmt.Sprintf("peak RSS %d MiB", o.HWMKB/1024), Model: "Open.C20.chunkAlloc_asis_witness: 5368709120 bytes allocated for 0 arrived; Props.C20.alloc_bounded_unsignedChunk_fixed: ≤ 2·arrived + 512"})
